@@ -147,6 +147,15 @@ CLAIMED = {
     note="One plasma point and fixed tables; Stark fit coefficients are inputs; Lorentzian kernel shape only through the integral (2e-3).",
     technique="TLA+ exact component-share table enumerated by TLC, one add_line evaluation per configuration against erf bin averages",
     design="4.2"),
+ "C04": dict(
+    text="BeamDensity.tla gives, for species mixes (1-3 ion species, stopping rates a_i + c_i n_eq so the composite coefficient depends on the equivalent density of all species), beam shapes "
+         "(sigma, divergences as rational tangents, length, clamping) and a lattice of points, the domain class (before source / beyond length / outside clamp / inside) and the exact integers S, "
+         "sigma_x^2(z), sigma_y^2(z), the direction as fractions; TLC checks monotonic attenuation, flux conservation without stopping and the streamline identity. Each of the 1 536 rows is evaluated "
+         "on a real Beam + SingleRayAttenuator in a uniform plasma (value to 1e-9 with CODATA constants; exact zeros; unit direction parallel to the spec's), the mock rates' evaluation arguments are "
+         "compared with (E_int, sum Z^2 n / Z_i, T_i), plus a fine on-axis lattice for monotone decay and flux conservation.",
+    note="Uniform plasma along the beam (attenuation integral exact); non-uniform profiles only through the C01 scenes; points between attenuation nodes compared within the linear-interpolation bound.",
+    technique="TLA+ exact integer ingredient table enumerated by TLC, one density/direction evaluation per row + argument trace check",
+    design="4.4"),
 }
 
 NOT_YET = {}
